@@ -120,6 +120,20 @@ class SSeq(Sym):
         return self.psum(self.length)
 
 
+def _num0(v):
+    """Integer value of an element for prefix sums: None counts as 0."""
+    if v is None:
+        return z3.IntVal(0)
+    if isinstance(v, SOpt):
+        inner = v.val
+        return z3.If(v.isnone, z3.IntVal(0), zint(inner) if inner is not None else z3.IntVal(0))
+    return zint(v)
+
+
+def _summable(x):
+    return x is None or V.is_num(x) or (isinstance(x, SOpt) and (x.val is None or V.is_num(x.val)))
+
+
 def fresh_seq(st, n, elem_shape, hint):
     """A fresh sequence of length n: struct-of-arrays over the element shape."""
     from . import shapes as S
@@ -171,15 +185,17 @@ def fresh_seq(st, n, elem_shape, hint):
 
     getter = mk(elem_shape, "")
     psum = None
-    if isinstance(elem_shape, S._Int):
+    opt_int = isinstance(elem_shape, S.Opt) and isinstance(elem_shape.inner, S._Int)
+    if isinstance(elem_shape, S._Int) or opt_int:
+        # prefix-sum model field; for Optional[int] elements None counts as 0
         ps = z3.Function(f"{base}$psum", z3.IntSort(), z3.IntSort())
         inner_get = getter
-        lo = elem_shape.lo
+        lo = elem_shape.inner.lo if opt_int else elem_shape.lo
 
         def getter(i, ps=ps, inner_get=inner_get):  # noqa: F811
             v = inner_get(i)
             zi = zint(i)
-            cur().assume(ps(zi + 1) == ps(zi) + zint(v))
+            cur().assume(ps(zi + 1) == ps(zi) + _num0(v))
             return v
 
         def psum(k, ps=ps, lo=lo):
@@ -244,12 +260,12 @@ def to_sseq(s, shape=None):
         return r
 
     psum = None
-    if all(V.is_num(x) for x in items):
+    if all(_summable(x) for x in items):
 
         def psum(k, items=items):
             acc = [0]
             for x in items:
-                acc.append(acc[-1] + x)
+                acc.append(acc[-1] + (x if V.is_num(x) else mk_int(_num0(x))))
             if isinstance(k, int):
                 return acc[k]
             r = acc[-1]
@@ -337,10 +353,13 @@ def seq_update(s, k, v):
         return ite(c, v, old.get(i))
 
     psum = None
-    if old.psum and V.is_num(v):
+    if old.psum and _summable(v):
 
         def psum(j):
-            return ite(j <= k, old.psum(j), old.psum(j) + v - old.get(k))
+            nv = v if V.is_num(v) else mk_int(_num0(v))
+            ov = old.get(k)
+            ov = ov if V.is_num(ov) else mk_int(_num0(ov))
+            return ite(j <= k, old.psum(j), old.psum(j) + nv - ov)
 
     return SSeq(s.length, getter, s.shape, psum, "upd")
 
